@@ -20,6 +20,9 @@ ScalarOk(e) ==
   /\ Chk(e.ref = enc, [tag |-> "HARNESS", i |-> l, ev |-> "PScalar", api |-> e.kind, label |-> "SpecVsReference", exp |-> "", got |-> "", detail |-> ""])
   /\ Chk(e.enc = enc, R(e, e.kind, "Encode", "bytes-differ"))
   /\ Chk(e.rst = "ok" /\ dec.ok /\ e.rval = dec.val /\ e.rn = dec.n, R(e, e.kind, "Decode", IF e.rst # "ok" THEN e.rst ELSE IF e.rn # dec.n THEN "consumed" ELSE "value"))
+  \* the BinaryProtocol's typed writer and reader of the kind: same bytes, same value, cursor behind the value
+  /\ Chk(e.pwst = "ok" /\ e.penc = enc, R(e, e.kind, "ProtocolWrite", IF e.pwst # "ok" THEN e.pwst ELSE "bytes-differ"))
+  /\ Chk(e.prst = "ok" /\ dec.ok /\ e.prval = dec.val /\ e.prn = dec.n, R(e, e.kind, "ProtocolRead", IF e.prst # "ok" THEN e.prst ELSE IF e.prn # dec.n THEN "consumed" ELSE "value"))
 VarintOk(e) ==
   LET r == DecVarint(e["in"], 1) IN
   /\ Chk((r.ok /\ e.refn = r.n /\ e.refv = r.be8) \/ (~r.ok /\ e.refn < 0),
